@@ -569,7 +569,7 @@ Productive(s, env, seen) ==
     [] OTHER -> TRUE
 (* no dangling reference; one definition per name (copies must be identical); unions well-formed; defaults valid *)
 WellFormedR(s) ==
-  /\ Productive(s, Defs(s), {})
+  /\ Productive(s, Defs(s), {}) /\ \A d \in DefOccs(s) : Productive(d, Defs(s), {})
   /\ RefsOf(s) \subseteq {d.name : d \in DefOccs(s)}
   /\ \A a, b \in DefOccs(s) : a.name = b.name => a = b
   /\ UnionsOk(s)
